@@ -278,6 +278,8 @@ func (r *Router) deployTargetsIntoService(service *Service, targetSlot TargetSlo
 
 	err = r.installService(service)
 	if err != nil {
+		// The new targets were rejected, so stop health checking them.
+		lb.Dispose()
 		return err
 	}
 
